@@ -31,7 +31,7 @@ claim("C12",
       "Trusted: TLC; regex prefix matching modelled as in the code; five Unicode digit blocks. Open known finding: names shaped like a numeric identifier do not round-trip (format ambiguity).",
       "TLA+ spec ConfigId : TLC exhaustive on reduced widths, C->S trace validation of real ConfigId events at real widths", "DESIGN.md section 4 C12")
 claim("C20",
-      "TLC exhausts the reader-writer lock model (one action per acquire/release of the five underlying locks) for 2R+2W and larger instances: mutual exclusion, reader sharing reachable, deadlock freedom, termination under weak fairness; EVERY edge of TLC's state graph is then walked on the real RWLock running on real threads under a controlled scheduler with the full projected state and the enabled set compared after every step (bisimulation within the bound). The lazy-table / in-place rescaling model (LazyTable) is exhausted by TLC and every line-level (thorough: byte-code-level) preemption point of the real _maybe_precompute / scale is exercised against complete operations of a second thread, the observations validated by Trace_LazyTable.",
+      "TLC exhausts the reader-writer lock model (one action per acquire/release of the five underlying locks) for 2R+2W and larger instances: mutual exclusion, reader sharing reachable, deadlock freedom, termination under weak fairness; EVERY edge of TLC's state graph is then walked on the real RWLock running on real threads under a controlled scheduler with the full projected state and the enabled set compared after every step (bisimulation within the bound). The lazy-table / in-place rescaling model (LazyTable) is exhausted by TLC and every line-level (thorough: byte-code-level) preemption point of the real _maybe_precompute / scale is exercised against complete operations of a second thread, the observations validated by Trace_LazyTable. A lock whose internal structure differs from the model is explored as a black box against the abstract lock (RWLockAbs); an inductive invariant of the lock model (any number of steps and passes) is checked with Apalache.",
       "Trusted: TLC; preemption of the lock code only at lock calls (counters are only touched under their mutex; a mutant moving the counter is detected); CPython GIL semantics for single attribute assignment.",
       "TLA+ specs RWLock + LazyTable : TLC exhaustive, S->C walk of every state-graph edge on the real lock under a controlled scheduler, C->S trace validation of preemption observations", "DESIGN.md section 4 C20")
 
@@ -49,6 +49,14 @@ claim("C02",
 claim("C03",
       "The specification's Serialize, written from the documented layout with AES.tla as an independent AES, is evaluated by TLC on the content of every recorded call and must equal the real writer's bytes EXACTLY (Bf3File.to_binary at start offsets 0, 1, 5, 2^8, 2^16-1, 2^16 and random; BEC2 bodies behind real headers) and the text envelope exactly; AES.tla is cross-checked against openssl enc on random (key, block) pairs each run; TLC proves the layout lemmas (size field = real size independent of key/offset, absolute contiguous addresses, fields recovered, payloads to EOF) on the bounded abstract instance.",
       BEC2_NOTE, "TLA+ spec Bf3Layout/Text/Bec2Concrete as independent serialiser evaluated by TLC : byte-exact C->S trace validation; TLC exhaustive layout lemmas", "DESIGN.md section 4 C03")
+claim("C04",
+      "TLC exhausts NoSilentAccept on the bounded abstract instance of the container: every cell of every enumerated file replaced by every replacement class (incl. every other token of the file), every proper prefix, suffixes from a small alphabet, the other session key - the reader with MAC checking either refuses or returns exactly the authentic content (and without MAC checking TLC finds silently accepted damage, so the invariant is not vacuous). On the real code: for a pool of authentic BF3 and BEC2 files (plain, encrypted, zero tails, ENC tag values, a payload > 4 KiB, two decryptable auth blocks, an ECC block read with one decryptor) every byte x {each single-bit flip, 00, FF, +1}, every binary and text prefix, suffixes, all 128 single-bit changes of the key, every byte of the BEC2 header; TLC validates every recorded read against the concrete specification (accepted => content equals the authentic one; a file the specification refuses accepted with another block list is flagged). The sweep is repeated with a toy cipher (8-bit MAC) registered through the plug-in interface and the specification instantiated on the same toy cipher, which exposes lossy MAC comparisons.",
+      "Trusted: TLC; AES.tla; MACs as unforgeable tokens in the abstract instance; byte positions of files larger than 600 bytes are sampled in the quick tier.",
+      "TLA+ spec Bf3Layout (Damage) : TLC exhaustive on the abstract instance, C->S trace validation of the real reader on every single-byte damage / prefix / suffix / key-bit variant (Trace_Bec2), and once more on a toy-cipher instance (Trace_Bf3Toy)", "DESIGN.md section 4 C04")
+claim("C05",
+      "TLC exhausts the accept set on the abstract instance: every file description with up to 2 (thorough: 3) structured deviations from a valid file (addresses, lengths, tag lists incl. duplicates and overlong tag lengths, entry/directory sizes, sentinel, entry order, trailing data, MAC variants: wrong index, other key, garbage) with all other MACs recomputed: the nominal file is accepted, every single deviation is rejected, acceptance is canonical. TLC then WRITES the descriptor space at real field widths with AES.tla MACs (Gen_AcceptSet) and every file is fed to the real reader: verdict and returned content must equal the specification's. Random multi-field edits of real files, directories of 255..300 entries (thorough: 2^16 entries), duplicate payload addresses, payloads > 4 KiB with one byte changed, other text layouts and concurrent reads are judged by the concrete Parse (Trace_Bec2).",
+      "Trusted: TLC; AES.tla; declared length >= 1 (the object model cannot represent 0); for the 2^16-entry directory the specification judges the deciding last entry (op bf3.bigdir), the other entries are assembled by the loop that also builds the completely parsed 255..300-entry directories.",
+      "TLA+ spec Bf3Layout (SerializeRaw/Parse) : TLC exhaustive accept-set model, S->C replay of TLC-written files at real widths on the real reader, C->S trace validation of edited real files", "DESIGN.md section 4 C05")
 claim("C06",
       "TLC exhausts CipherOnly and RoundTrip on the abstract instance with encrypted components; on the real code, for every content length mod 16, trailing-zero count and all-zero content (BF3 and BEC2 framing, components from set_config): payload region = AES-128-CBC(key, zero IV, zero-padded content) byte-exact per AES.tla, read-back equals the content up to its declared length, TLC scans the written file for plaintext / session key / security code / customer key needles, and writes with the cipher unregistered, raising, or raising only in encrypt must fail without emitting anything.",
       BEC2_NOTE, "TLA+ spec Bf3Layout (+AES) : TLC exhaustive on the abstract instance, C->S trace validation incl. needle scans", "DESIGN.md section 4 C06")
@@ -101,9 +109,11 @@ def main():
                    "baseline_off_cmd": "cd /repo && /venv/bin/python -m pytest -ra -q -p no:cacheprovider --timeout=900 --continue-on-collection-errors",
                    "source_commits": [], "add_only": True},
          "engines": [{"name": "tlc", "path": "/opt/veriftools/tla/tla2tools.jar", "serves_properties": sorted(CHECKS),
-                      "kind_free_text": "TLA+ specifications under /verif/spec checked by TLC (bounded exhaustive model checking, trace validation of events recorded from the real code, generation of cases replayed on the real code)"}],
+                      "kind_free_text": "TLA+ specifications under /verif/spec checked by TLC (bounded exhaustive model checking, trace validation of events recorded from the real code, generation of cases replayed on the real code)"},
+                     {"name": "apalache", "path": "/opt/veriftools/apalache/bin/apalache-mc", "serves_properties": ["C20"],
+                      "kind_free_text": "inductive invariants of the reader-writer lock model (spec/RWLockInd.tla) and, where delivered, of the lazy-table model: Init => IndInv, IndInv /\\ Next => IndInv', IndInv => safety, for fixed numbers of threads and any number of steps / passes; TLC binds the Apalache-typed restatement to the TLC model; in addition to, not instead of, the TLC checks"}],
          "checks": [], "not_applicable": [],
-         "notes": "All checks: bin/check <id> --tier quick|thorough. Exit 0 held, 1 VIOLATION, 2 machinery failure. Known findings: known_findings.json."}
+         "notes": "All checks: bin/check <id> --tier quick|thorough. Exit 0 held, 1 VIOLATION, 2 machinery failure. Known findings: known_findings.json. Every check runs twice: normally, and in a child interpreter started with python -O -W error::DeprecationWarning (C10, C12, C15 additionally in the bare C locale); TLC runs that do not depend on the implementation are shared between the passes (VERIF_SECOND_PASS=0 switches the second pass off). Replay files record the interpreter flags. Seeded-change evaluation: tools/eval_mutants.py (DESIGN.md 9.7 - 9.12)."}
     for p in props:
         pid = p["id"]
         if pid in CHECKS:
